@@ -585,3 +585,101 @@ def mx_end_reverse(self, g):
 
 def mx_stop(self, g):
     assert g.done, "C02,C09:stream_ends_only_after_final_action"
+
+
+# ---------------------------------------------------------------------------- Revolve family
+# The stream is the conversion of an operation list built elsewhere (H-Revolve, Disk-Revolve, ...).
+# What is provable from the iterator alone - for *every* operation list of well-shaped operations,
+# on the paths where the iterator's own guards pass - is the local part of the executor: g.S is
+# the set of (storage, step) restart checkpoints an executor holds.  Clauses that need the global
+# structure of the list (presence at a Copy, coverage, budgets, phases) stay with the bounded layer.
+def rv_init(self, g):
+    g.N = self._max_n
+    g.fwd = 0
+    g.adj = 0
+    g.done = False
+    g.S = set()
+
+
+def rv_counters(self, g):
+    assert self._n == g.fwd, "C08:n_is_forward_position"
+    assert self._r == g.adj, "C08:r_is_steps_reversed"
+    assert self._max_n is not None and self._max_n == g.N, "C08:max_n_is_true_step_count"
+
+
+def rv_forward(self, g, n0, n1, write_ics, write_adj_deps, storage):
+    assert not g.done, "C02,C09:nothing_after_final_action"
+    assert 0 <= n0 and n0 < n1, "C18:forward_0<=n0<n1"
+    if storage == StorageType.RAM or storage == StorageType.DISK:
+        assert write_ics or write_adj_deps, "C18:forward_ram_disk_only_if_written"
+    assert not (write_ics and write_adj_deps), "C03,C18:checkpoint_never_both_kinds"
+    if storage == StorageType.NONE:
+        assert not write_ics and not write_adj_deps, "C18:forward_none_only_if_nothing_written"
+    assert g.fwd == n0, "C01:forward_starts_at_forward_state"
+    if write_adj_deps:
+        assert n1 == n0 + 1, "C12:one_step_of_dependencies"
+        assert storage == StorageType.WORK, "C12:adjoint_dependencies_go_to_work"
+    if write_ics:
+        assert storage == StorageType.RAM or storage == StorageType.DISK, "C18,C11:restart_checkpoint_in_ram_or_disk"
+        if storage == StorageType.RAM:
+            assert self.uses_storage_type(storage), "C11:uses_storage_type_true_for_every_storage_touched"
+        g.S.add((storage, n0))
+    g.fwd = n1
+    rv_counters(self, g)
+    assert not self.is_exhausted, "C09:is_exhausted_false_while_actions_remain"
+
+
+def rv_end_forward(self, g):
+    assert not g.done, "C02,C09:nothing_after_final_action"
+    assert g.fwd == g.N, "C02:EndForward_when_forward_complete"
+    assert g.adj == 0, "C02:EndForward_before_any_reverse"
+    rv_counters(self, g)
+    assert not self.is_exhausted, "C09:is_exhausted_false_while_actions_remain"
+
+
+def rv_reverse(self, g, n1, n0, clear_adj_deps):
+    assert not g.done, "C02,C09:nothing_after_final_action"
+    assert 0 <= n0 and n0 < n1, "C18:reverse_n1>n0>=0"
+    assert n1 == g.N - g.adj, "C02:reverse_starts_at_adjoint_position"
+    assert g.fwd == n1, "C01:reverse_with_forward_state_at_adjoint_position"
+    assert n1 == n0 + 1, "C12:one_step_of_dependencies"
+    assert clear_adj_deps, "C12:work_holds_no_dependencies_after_reverse"
+    g.adj = g.adj + (n1 - n0)
+    rv_counters(self, g)
+    assert not self.is_exhausted, "C09:is_exhausted_false_while_actions_remain"
+
+
+def rv_load(self, g, n, from_storage, to_storage, is_move):
+    assert not g.done, "C02,C09:nothing_after_final_action"
+    assert from_storage == StorageType.RAM or from_storage == StorageType.DISK, \
+        "C18:copy_move_source_ram_or_disk"
+    assert n >= 0, "C18:copy_move_step_nonnegative"
+    assert to_storage == StorageType.WORK, "C18:loads_go_to_work"
+    if from_storage == StorageType.RAM:
+        assert self.uses_storage_type(from_storage), "C11:uses_storage_type_true_for_every_storage_touched"
+    if is_move:
+        assert (from_storage, n) in g.S, "C01:checkpoint_present_in_named_storage"
+        g.S.remove((from_storage, n))
+    g.fwd = n
+    rv_counters(self, g)
+    assert not self.is_exhausted, "C09:is_exhausted_false_while_actions_remain"
+
+
+def rv_copy(self, g, n, from_storage, to_storage):
+    rv_load(self, g, n, from_storage, to_storage, False)
+
+
+def rv_move(self, g, n, from_storage, to_storage):
+    rv_load(self, g, n, from_storage, to_storage, True)
+
+
+def rv_end_reverse(self, g):
+    assert not g.done, "C02,C09:nothing_after_final_action"
+    assert len(g.S) == 0, "C04:storage_empty_at_final_EndReverse"
+    g.done = True
+    assert self._r == g.adj, "C08:r_is_steps_reversed"
+    assert self.is_exhausted, "C09:is_exhausted_true_once_final_action_emitted"
+
+
+def rv_stop(self, g):
+    assert g.done, "C02,C09:stream_ends_only_after_final_action"
